@@ -20,7 +20,7 @@ type PrefixAllocator struct {
 
 func NewPrefixAllocator(network netip.Prefix, prefixLength int) *PrefixAllocator {
 	delegBits := prefixLength - network.Bits()
-	if delegBits < 0 || delegBits > 63 {
+	if delegBits < 0 || delegBits > 63 || prefixLength > network.Addr().BitLen() {
 		return nil
 	}
 	count := uint64(1) << uint(delegBits)
